@@ -47,6 +47,7 @@ type Config struct {
 	AssumeLoops   map[string]bool // loops whose unwinding failure is pruned by assumption (spin loops)
 	Rounds        int
 	VisAll        bool // every heap access is a scheduling point (race mode)
+	RealHasher    bool // execute the body of xsync.defaultHasher (runtime.typehash modelled by its contract) instead of stubbing it
 	Race          bool // record heap accesses inside VxPar and emit the data-race obligation
 	NoResizeCall  map[int]bool // resize hints whose request (call of resize) is excluded from this instance by assumption
 	NoResize      map[int]bool // resize hints (0 grow, 1 shrink, 2 clear) excluded from this instance by assumption
@@ -102,6 +103,8 @@ type Exec struct {
 	FeasQ, FeasPruned, FeasCached, PrunedCalls, FeasTimeouts int
 	feasModels []*Model
 	vis        bool
+	parkLoops  bool
+	chanClosed map[int]*Term
 	Concrete   *ReplayJob
 	TraceRegs  map[string]RegTrace
 	TraceOrder []string
@@ -159,6 +162,12 @@ func NewExec(prog *ssa.Program, cfg Config) *Exec {
 			cfg.Unwind[fn] = 3
 		}
 	}
+	// striped counters: 8 stripes
+	for _, fn := range []string{"(*" + xsyncPath + ".mapTable).sumSize", "(*" + xsyncPath + ".mapOfTable).sumSize"} {
+		if _, ok := cfg.Unwind[fn]; !ok {
+			cfg.Unwind[fn] = 9
+		}
+	}
 	// spin loops whose extra iterations change no state: pruned by assumption
 	for _, fn := range []string{xsyncPath + ".makeSeed", xsyncPath + ".lockBucket"} {
 		if _, ok := cfg.Unwind[fn]; !ok {
@@ -172,7 +181,7 @@ func NewExec(prog *ssa.Program, cfg Config) *Exec {
 		Streams: map[string][]StreamEnt{},
 		strIDs:  map[string]int{"": 0}, strByID: map[int]string{0: ""},
 		instrIDs: map[ssa.Instruction]int{}, instrKeys: map[ssa.Instruction]string{}, fnInfos: map[*ssa.Function]*fnInfo{},
-		FuncsEncoded: map[string]string{}, initDone: map[*ssa.Package]bool{},
+		FuncsEncoded: map[string]string{}, initDone: map[*ssa.Package]bool{}, chanClosed: map[int]*Term{},
 	}
 	if cfg.Race {
 		x.race = &raceState{}
@@ -280,7 +289,9 @@ func (x *Exec) loadRaw(p PtrV, t types.Type) Value {
 		for i := len(p.Alts) - 1; i >= 0; i-- {
 			a := p.Alts[i].Addr + j
 			var cv Value
-			if a <= 0 || a >= len(x.cells) {
+			if p.Alts[i].Addr >= ifaceViewTyp {
+				cv = x.loadIfaceView(p.Alts[i].Addr)
+			} else if a <= 0 || a >= len(x.cells) {
 				cv = x.zero(lts[j])
 			} else {
 				cv = x.coerce(x.cells[a], lts[j])
@@ -716,6 +727,10 @@ func (x *Exec) runLoop(f *frame, L *loopInfo) {
 			break
 		}
 		if counted > K {
+			if x.parkLoops {
+				// a goroutine body run as a call: after the bound it is parked at its next wait (no claim about later iterations)
+				break
+			}
 			if assumeMode && x.thr != nil && x.thr.NoWait {
 				x.oblige("blocked", g, fmt.Sprintf("spin loop %s: a reader would have to wait for a stalled writer", L.name), L.header.Instrs[0].Pos())
 			} else if assumeMode {
@@ -1263,4 +1278,152 @@ func (x *Exec) CloseFeas() {
 		x.feas.Close()
 		x.feas = nil
 	}
+}
+
+
+// Interface-header views. xsync's defaultHasher reinterprets the address of an
+// interface variable as *iface{typ uintptr; word unsafe.Pointer} (gc ABI). An
+// interface value occupies one cell here, so the two fields are addressed as
+// views of that cell: typ = the dynamic type's id (0 for nil), word = the value
+// itself for pointer-shaped dynamic types, otherwise the address of a boxed
+// copy of the value.
+const (
+	ifaceViewTyp  = 1 << 28
+	ifaceViewWord = 2 << 28
+	ifaceViewMask = 1<<28 - 1
+)
+
+func isPointerShaped(t types.Type) bool {
+	switch u := t.Underlying().(type) {
+	case *types.Pointer, *types.Chan, *types.Map, *types.Signature:
+		return true
+	case *types.Basic:
+		return u.Kind() == types.UnsafePointer
+	}
+	return false
+}
+
+func (x *Exec) loadIfaceView(addr int) Value {
+	u := x.U
+	base := addr & ifaceViewMask
+	word := addr >= ifaceViewWord
+	if base <= 0 || base >= len(x.cells) {
+		if word {
+			return PtrV{}
+		}
+		return u.Const(64, 0)
+	}
+	switch cv := x.cells[base].(type) {
+	case IfaceV:
+		if !word {
+			return u.Zext(cv.Tag, 64)
+		}
+		var r Value = PtrV{}
+		for _, id := range sortedKeys(cv.Pay) {
+			T := x.TR.Type(id)
+			is := u.Eq(cv.Tag, u.Const(16, uint64(id)))
+			var w PtrV
+			if isPointerShaped(T) {
+				if pp, ok := cv.Pay[id].(PtrV); ok {
+					w = pp
+				}
+			} else {
+				box := x.allocCells(T, "iface box")
+				x.storeRaw(PtrV{Alts: []PAlt{{u.True, box}}}, T, cv.Pay[id], u.True)
+				w = PtrV{Alts: []PAlt{{u.True, box}}}
+			}
+			r = x.Merge(is, w, r)
+		}
+		return r
+	case OpaqueV:
+		// a reflect.Type value: its data word is the type descriptor, identified by the type id
+		if cv.What == "rtype" {
+			if word {
+				return u.Const(64, uint64(cv.ID))
+			}
+			return u.Const(64, 0xFFFF)
+		}
+	}
+	if word {
+		return PtrV{}
+	}
+	return u.Const(64, 0)
+}
+
+
+// loadRawAs reads a T through p even when the target cells hold values of
+// another shape (a reinterpreting read, as runtime.typehash does with whatever
+// p addresses): mismatching cells are read as their scalar content when they
+// have one, and as zero otherwise.
+func (x *Exec) loadRawAs(p PtrV, t types.Type) (v Value) {
+	defer func() {
+		if e := recover(); e != nil {
+			if _, ok := e.(*ExecError); !ok {
+				panic(e)
+			}
+			// fall back: per-alternative reads merged leaf-wise where shapes agree
+			n := x.cellsOf(t)
+			lts := x.leafTypes(t, nil)
+			leaves := make([]Value, n)
+			for j := 0; j < n; j++ {
+				var r Value = x.zero(lts[j])
+				for i := len(p.Alts) - 1; i >= 0; i-- {
+					a := p.Alts[i].Addr + j
+					if a <= 0 || a >= len(x.cells) || p.Alts[i].Addr >= ifaceViewTyp {
+						continue
+					}
+					cv := x.reinterpret(x.cells[a], lts[j])
+					r = x.Merge(p.Alts[i].G, cv, r)
+				}
+				leaves[j] = r
+			}
+			v, _ = x.unflatten(t, leaves)
+		}
+	}()
+	return x.loadRaw(p, t)
+}
+
+// reinterpret reads a cell as leaf type lt whatever it holds.
+func (x *Exec) reinterpret(cv Value, lt types.Type) Value {
+	u := x.U
+	zero := x.zero(lt)
+	switch z := zero.(type) {
+	case *Term:
+		switch c := cv.(type) {
+		case *Term:
+			if c.W == z.W {
+				return c
+			}
+			if c.W == 0 || z.W == 0 {
+				return z
+			}
+			if c.W > z.W {
+				return u.Extract(c, z.W-1, 0)
+			}
+			return u.Zext(c, z.W)
+		case PtrV:
+			var r *Term = u.Const(64, 0)
+			for i := len(c.Alts) - 1; i >= 0; i-- {
+				r = u.Ite(c.Alts[i].G, u.Const(64, uint64(c.Alts[i].Addr)), r)
+			}
+			if z.W == 64 {
+				return r
+			}
+		}
+		return z
+	case PtrV:
+		if c, ok := cv.(PtrV); ok {
+			return c
+		}
+		// a non-pointer word read as a pointer: an address-like scalar; keep its
+		// identity as a term by returning it as is (eqLeaves accepts scalars)
+		if c, ok := cv.(*Term); ok {
+			return c
+		}
+		return z
+	}
+	if fmt.Sprintf("%T", cv) == fmt.Sprintf("%T", zero) {
+		return cv
+	}
+	return zero
 }
